@@ -78,7 +78,6 @@ TARGETS = [
         "name": "SpinConv",
         "file": "qucumber/observables/utils.py",
         "cls": None,
-        "optional": True,
         "funcs": [
             {"py": "to_pm1", "params": [("samples", "float")]},
             {"py": "to_01", "params": [("samples", "float")]},
@@ -138,6 +137,10 @@ class Fn:
                 return f"({v} : Int)", "int"
             if isinstance(v, float) and v == int(v) and abs(v) < 2 ** 31:
                 return f"(fint {int(v)})", "float"
+            if isinstance(v, float) and v == v and abs(v) < 2 ** 31:
+                num, den = v.as_integer_ratio()  # every finite float is a dyadic rational: exact
+                if den <= 2 ** 20:
+                    return f"(fdiv (fint {num}) (fint {den}))", "float"
             raise Unsupported(n, f"constant {v!r}")
         if isinstance(n, ast.Name):
             if n.id in env:
